@@ -11,6 +11,7 @@ FAMILIES = [("Sat3", "any"), ("Sat3", "any"), ("Rat", "acyclic"), ("Bool", "any"
 
 
 def generate(rng, tier, shard, nshards):
+    yield from generate_family(rng, shard, nshards)
     n = 12 if tier == "quick" else 120
     L = 3 if tier == "quick" else 4
     for gi in range(n):
@@ -53,8 +54,19 @@ def selftests(events, rng):
     return out
 
 
+def generate_family(rng, shard, nshards):
+    for G in fam.tlc_family(shard, nshards):        # (C) the exhaustive family enumerated by TLC
+        for p in fam.strings(G["V"], 3):
+            yield gops.event("prefix", {"sr": "Sat3", "G": G, "s": list(p), "how": "prefix_weight"}, site="prefix_weight",
+                             feat="tlc-family")
+        yield gops.event("prefixgrammar", {"sr": "Sat3", "G": G, "L": 3}, site="prefix_grammar", feat="tlc-family")
+        yield gops.event("derivative", {"sr": "Sat3", "G": G, "pre": ["a"], "L": 2}, site="derivative", feat="tlc-family")
+
+
 def run(report, tier, seed):
-    standard_run(report, "C03", MODULE, tier, seed, selftests,
+    from common import semantic_core
+    famfile = semantic_core(report, ["PrefixRecurrence", "PrefixEmpty", "PrefixBounded"], maxrules=2 if tier == "quick" else 3)
+    standard_run(report, "C03", MODULE, tier, seed, selftests, extra_env={"VERIF_FAMILY": famfile},
                  rule=("random grammars (Sat3/Sat2/Bool: cyclic, infinitely many completions summed exactly; Rat: finite "
                        "languages), all prefixes up to L: prefix_weight, prefix_grammar (oracle evaluates the code's "
                        "output grammar), derivatives(p)[-1].treesum(), derivative(a) as a grammar and derivative(a)(y); "
